@@ -3,6 +3,7 @@ package main
 import (
 	"go/token"
 	"go/types"
+	"sort"
 	"strings"
 
 	"golang.org/x/tools/go/ssa"
@@ -291,11 +292,20 @@ func ruleNilableTimer(c *Ctx, r *R) {
 func ruleMergeSourceTag(c *Ctx, r *R) {
 	n := 0
 	for _, name := range []string{"xsort.Merge", "xsort.mergeIterator.Next"} {
-		fn := c.fn(name)
-		if fn == nil {
+		if c.fn(name) == nil {
 			r.undecided(name+"|missing", token.NoPos, "anchor not found")
-			continue
 		}
+	}
+	// every construction of valueAndSource{value, source} in the package (Merge, Next and whatever helpers they are built from)
+	var fns []*ssa.Function
+	for _, fn := range c.Funcs {
+		if rootFn(fn).Pkg == c.SSA["xsort"] && fn.Blocks != nil {
+			fns = append(fns, fn)
+		}
+	}
+	sort.Slice(fns, func(i, j int) bool { return fns[i].Pos() < fns[j].Pos() })
+	for _, fn := range fns {
+		name := c.nameOf(fn)
 		// constructions of valueAndSource{value, source}
 		instrs(fn, func(b *ssa.BasicBlock, i int, in ssa.Instruction) {
 			al, ok := in.(*ssa.Alloc)
